@@ -1035,6 +1035,9 @@ pub fn family(name: &str, tier: &str) -> Vec<Program> {
                 (vec![], vec![vec![TOp::InvAll], vec![TOp::Adv(1), TOp::Ins(0, 1), TOp::Adv(1), TOp::InvAll, TOp::Get(0)]]),
                 (vec![Op::Ins(0, 1), Op::Sync, Op::Adv(1)], vec![vec![TOp::InvAll], vec![TOp::Adv(1), TOp::InvAll], vec![TOp::Get(0)]]),
                 (vec![Op::Ins(0, 1), Op::Get(0)], vec![vec![TOp::Inv(0), TOp::Ins(0, 1)], vec![TOp::Sync, TOp::Get(0)]]),
+                // a hit recorded around an invalidate_all at the same clock reading, applied later
+                (vec![Op::Ins(0, 1), Op::Sync, Op::Adv(1)], vec![vec![TOp::InvAll], vec![TOp::Get(0), TOp::Sync, TOp::Get(0)]]),
+                (vec![Op::Ins(0, 1), Op::Sync, Op::Adv(1)], vec![vec![TOp::InvAll, TOp::Sync, TOp::Get(0)], vec![TOp::Get(0)]]),
             ];
             for (pre, th) in progs {
                 for cap in [None, Some(2u64)] {
@@ -1059,6 +1062,20 @@ pub fn family(name: &str, tier: &str) -> Vec<Program> {
                     let mut c = base(cap, None);
                     c.beyond = beyond;
                     out.push(Program { cfg: c, prefix: pre.clone(), threads: th.clone() });
+                }
+            }
+            // maintenance racing writers of the entry it is about to evict (weigher: an
+            // update grows an admitted entry above the capacity)
+            for th in [
+                vec![vec![TOp::Ins(0, 3), TOp::Sync], vec![TOp::Inv(0)]],
+                vec![vec![TOp::Ins(0, 3), TOp::Sync], vec![TOp::Ins(0, 1)]],
+                vec![vec![TOp::Ins(0, 3), TOp::Sync], vec![TOp::Ins(1, 1), TOp::Inv(0)]],
+            ] {
+                for beyond in [true, false] {
+                    let mut c = base(Some(2), None);
+                    c.weigher = true;
+                    c.beyond = beyond;
+                    out.push(Program { cfg: c, prefix: vec![Op::Ins(0, 1), Op::Sync], threads: th.clone() });
                 }
             }
             // single-thread bursts far beyond the write queue, both housekeeping regimes
